@@ -25,46 +25,71 @@ Proof.
     + destruct (String.eqb k k2); auto.
 Qed.
 
-(* ---- resolve_labels establishes exactness -------------------------------------------------------------------- *)
-Lemma resolve_labels_step l it r pos ls :
-  resolve_labels ((l, it) :: r) pos ls =
+(* ---- resolve_labels establishes exactness (and refuses duplicate labels) ------------------------------------------ *)
+Lemma rlf_step l it r pos ls d :
+  resolve_labels_from ((l, it) :: r) pos ls d =
   match is_label it with
-  | Some n => resolve_labels r pos (dict_set n pos ls)
-  | None => n <<- size_o it ;;; resolve_labels r (pos + n) ls
+  | Some n => if mem_str n d then Fail (PAsm l) else resolve_labels_from r pos (dict_set n pos ls) (n :: d)
+  | None => n <<- size_o it ;;; resolve_labels_from r (pos + n) ls d
   end.
 Proof. destruct it; reflexivity. Qed.
 
-Lemma resolve_labels_other its : forall pos ls ls' L,
-  resolve_labels its pos ls = Done ls' -> ~ In L (gnames its) -> assoc_str L ls' = assoc_str L ls.
+Lemma mem_str_false n d : mem_str n d = false -> ~ In n d.
 Proof.
-  induction its as [|[l it] r IH]; intros pos ls ls' L H Hn.
+  unfold mem_str. intros H Hin. assert (existsb (String.eqb n) d = true).
+  { apply existsb_exists. exists n. split; auto. apply String.eqb_refl. }
+  congruence.
+Qed.
+
+(* a successful resolve_labels means the label names are pairwise distinct *)
+Lemma rlf_nodup its : forall pos ls d ls',
+  resolve_labels_from its pos ls d = Done ls' -> NoDup (gnames its) /\ (forall n, In n (gnames its) -> ~ In n d).
+Proof.
+  induction its as [|[l it] r IH]; intros pos ls d ls' H.
+  - simpl. split. constructor. intros n [].
+  - rewrite rlf_step in H. simpl. destruct (is_label it) as [n|].
+    + destruct (mem_str n d) eqn:Em; try discriminate.
+      destruct (IH _ _ _ _ H) as [Hnd Hd]. split.
+      * constructor; auto. intro Hin. apply (Hd n Hin). left; reflexivity.
+      * intros m [<-|Hm]. apply mem_str_false; auto. intro Hin. apply (Hd m Hm). right; exact Hin.
+    + destruct (size_o it) as [k| |]; simpl in H; try discriminate. eapply IH; eauto.
+Qed.
+
+Lemma rlf_other its : forall pos ls d ls' L,
+  resolve_labels_from its pos ls d = Done ls' -> ~ In L (gnames its) -> assoc_str L ls' = assoc_str L ls.
+Proof.
+  induction its as [|[l it] r IH]; intros pos ls d ls' L H Hn.
   - simpl in H. inversion H; reflexivity.
-  - rewrite resolve_labels_step in H. simpl in Hn. destruct (is_label it) as [n|].
-    + rewrite (IH _ _ _ L H). apply assoc_dict_set_other. intro; subst; apply Hn; left; auto.
+  - rewrite rlf_step in H. simpl in Hn. destruct (is_label it) as [n|].
+    + destruct (mem_str n d); try discriminate.
+      rewrite (IH _ _ _ _ L H). apply assoc_dict_set_other. intro; subst; apply Hn; left; auto.
       intro; apply Hn; right; auto.
     + destruct (size_o it) as [k| |]; simpl in H; try discriminate. eapply IH; eauto.
 Qed.
 
-Lemma resolve_labels_exact' its : forall pos ls ls',
-  NoDup (gnames its) -> resolve_labels its pos ls = Done ls' ->
+Lemma rlf_exact its : forall pos ls d ls',
+  resolve_labels_from its pos ls d = Done ls' ->
   forall L q, goff L its = Some q -> assoc_str L ls' = Some (pos + q).
 Proof.
-  induction its as [|[l it] r IH]; intros pos ls ls' Hnd H L q Hg.
+  induction its as [|[l it] r IH]; intros pos ls d ls' H L q Hg.
   - simpl in Hg. discriminate.
-  - rewrite resolve_labels_step in H. simpl in Hg, Hnd. destruct (is_label it) as [n|] eqn:El.
-    + inversion Hnd as [|? ? N1 N2]; subst.
+  - pose proof (rlf_nodup _ _ _ _ _ H) as [Hnd _].
+    rewrite rlf_step in H. simpl in Hg, Hnd. destruct (is_label it) as [n|] eqn:El.
+    + destruct (mem_str n d); try discriminate.
+      inversion Hnd as [|? ? N1 N2]; subst.
       destruct (String.eqb L n) eqn:E.
       * apply String.eqb_eq in E; subst L. inversion Hg; subst q.
-        rewrite (resolve_labels_other _ _ _ _ n H N1), assoc_dict_set_same. f_equal; lia.
+        rewrite (rlf_other _ _ _ _ _ n H N1), assoc_dict_set_same. f_equal; lia.
       * eapply IH; eauto.
     + destruct (size_o it) as [k| |] eqn:Es; simpl in H; try discriminate.
       destruct (goff L r) as [q'|] eqn:Eg; simpl in Hg; inversion Hg; subst q.
-      rewrite (IH _ _ _ Hnd H L q' Eg). rewrite (size_o_isz _ _ Es). f_equal; lia.
+      rewrite (IH _ _ _ _ H L q' Eg). rewrite (size_o_isz _ _ Es). f_equal; lia.
 Qed.
 
-Lemma resolve_labels_exact its ls ls' :
-  NoDup (gnames its) -> resolve_labels its 0 ls = Done ls' -> exact its ls'.
-Proof. intros Hnd H L q Hg. rewrite (resolve_labels_exact' its 0 ls ls' Hnd H L q Hg). reflexivity. Qed.
+Lemma resolve_labels_nodup its ls ls' : resolve_labels its 0 ls = Done ls' -> NoDup (gnames its).
+Proof. unfold resolve_labels. intro H. exact (proj1 (rlf_nodup _ _ _ _ _ H)). Qed.
+Lemma resolve_labels_exact its ls ls' : resolve_labels its 0 ls = Done ls' -> exact its ls'.
+Proof. unfold resolve_labels. intros H L q Hg. rewrite (rlf_exact its 0 ls [] ls' H L q Hg). reflexivity. Qed.
 
 (* ---- size-preserving item-wise passes ------------------------------------------------------------------------- *)
 (* same line, same label-ness, same size *)
@@ -223,13 +248,13 @@ Proof.
   inversion H; reflexivity.
 Qed.
 Lemma seq_bytes_len name f w : seq_fmt name = Some f -> seq_width name = Some w ->
-  forall vals bs, seq_bytes f vals = Done bs -> zlen bs = w * zlen vals.
+  forall l vals bs, seq_bytes l f vals = Done bs -> zlen bs = w * zlen vals.
 Proof.
-  intros Hf Hw. induction vals as [|v vals IH]; intros bs H; simpl in H.
+  intros Hf Hw l. induction vals as [|v vals IH]; intros bs H; simpl in H.
   - inversion H. unfold zlen; simpl; lia.
   - destruct (py_int_lit v) as [z|]; try discriminate.
     destruct (struct_pack _ z) as [[b|e]|] eqn:Es; try discriminate.
-    destruct (seq_bytes f vals) as [rest| |]; cbn [obind] in H; try discriminate. inversion H; subst.
+    destruct (seq_bytes l f vals) as [rest| |]; cbn [obind] in H; try discriminate. inversion H; subst.
     pose proof (seq_elem_len _ _ _ Hf Hw z b Es) as Hb. specialize (IH rest eq_refl).
     unfold zlen in *. rewrite app_length. simpl List.length. lia.
 Qed.
@@ -253,7 +278,7 @@ Proof.
            [ simpl; rewrite <- app_assoc; reflexivity | constructor; [apply same1_refl | exact F] ]).
     destruct (negb (all_ints vals)); try discriminate.
     destruct (seq_fmt name) as [f|] eqn:Ef; try discriminate.
-    destruct (seq_bytes f vals) as [bs| |] eqn:Eb; cbn [obind] in H; try discriminate.
+    destruct (seq_bytes l f vals) as [bs| |] eqn:Eb; cbn [obind] in H; try discriminate.
     destruct (IH _ _ H) as (o' & -> & F). eexists; split.
     simpl; rewrite <- app_assoc; reflexivity.
     constructor; [|exact F]. same1_tac.
@@ -587,16 +612,17 @@ Definition layout_facts (its : list litem) (r : result) : Prop :=
     pF2 (Rval (r_consts r) (r_labels r)) 0 al fin.   (* immediates: evaluated at the final offset with the final labels *)
 
 Theorem pipeline_layout its c0 l0 cmp r :
-  assemble_items its c0 l0 cmp = Done r -> nonneg its -> NoDup (gnames its) -> layout_facts its r.
+  assemble_items its c0 l0 cmp = Done r -> nonneg its -> layout_facts its r /\ NoDup (gnames its).
 Proof.
-  unfold assemble_items. intros H Hn Hd.
+  unfold assemble_items. intros H Hn.
   destruct (resolve_constants_lr its c0 []) as [[its1 consts]| |] eqn:E1; cbn [obind] in H; try discriminate.
   pose proof (resolve_constants_filter _ _ _ _ _ E1) as F1. simpl in F1. subst its1.
   set (i1 := filter not_const its) in *.
   assert (N1 : nonneg i1) by (apply filter_nonneg; auto).
-  assert (D1 : NoDup (gnames i1)) by (unfold i1; rewrite filter_gnames; auto).
   destruct (resolve_labels i1 0 l0) as [labels| |] eqn:E2; cbn [obind] in H; try discriminate.
-  pose proof (resolve_labels_exact _ _ _ D1 E2) as X1.
+  pose proof (resolve_labels_nodup _ _ _ E2) as D1.
+  assert (Hd : NoDup (gnames its)) by (unfold i1 in D1; rewrite filter_gnames in D1; exact D1).
+  pose proof (resolve_labels_exact _ _ _ E2) as X1.
   set (i2 := resolve_register_aliases i1 consts) in *.
   pose proof (aliases_same i1 consts) as S2. fold i2 in S2.
   assert (N2 : nonneg i2) by (eapply same_nonneg; eauto).
@@ -644,7 +670,7 @@ Proof.
   inversion H; subst r; clear H. simpl.
   assert (SS : Forall2 same1 i7 i14).
   { repeat (eapply Forall2_same1_trans; [eassumption|]). apply Forall2_same1_refl. }
-  exists i6, i7, i14. split; [exact N6|]. repeat split; auto.
+  split; [|exact Hd]. exists i6, i7, i14. split; [exact N6|]. repeat split; auto.
   - (* its -> i6 *)
     eapply grouped_keep_trans. apply filter_keep. fold i1.
     eapply grouped_keep_trans. apply (aliases_keep i1 consts). fold i2.
